@@ -2367,6 +2367,173 @@ where
 
 impl<F> Eq for FnGraph<F> where F: Eq {}
 
+/// Verification hooks: the private streaming building blocks, callable from
+/// `crate::verif_hooks::streaming`. Each function only forwards to the private
+/// function of the same name.
+#[cfg(all(feature = "verif_hooks", feature = "async"))]
+pub(crate) mod verif_streaming {
+    use futures::{future::Future, stream::Stream};
+    use tokio::sync::{
+        mpsc::{Receiver, Sender},
+        RwLock,
+    };
+
+    use crate::{FnGraph, FnId, StreamOpts, StreamOrder, StreamOutcomeState};
+
+    /// Channels and queuer of one streaming call, as the fold variants set them up.
+    pub struct QueuerParts<Q> {
+        /// Number of functions in the graph.
+        pub node_count: usize,
+        /// Receiver of function IDs that are ready to run.
+        pub fn_ready_rx: Receiver<FnId>,
+        /// Sender of function IDs that have been run.
+        pub fn_done_tx: Sender<FnId>,
+        /// The queuer future.
+        pub queuer: Q,
+    }
+
+    /// Channels and queuer of one streaming call, as the concurrent variants set
+    /// them up.
+    pub struct QueuerPartsConcurrent<Q> {
+        /// Number of functions in the graph.
+        pub node_count: usize,
+        /// Receiver of function IDs that are ready to run.
+        pub fn_ready_rx: Receiver<FnId>,
+        /// Sender of function IDs that have been run.
+        pub fn_done_tx: RwLock<Option<Sender<FnId>>>,
+        /// Number of functions remaining.
+        pub fns_remaining: RwLock<usize>,
+        /// The queuer future.
+        pub queuer: Q,
+    }
+
+    /// `stream_setup_init` followed by `fn_ready_queuer`, as in
+    /// `fold_async_internal` / `try_fold_async_internal` and their `mut` twins.
+    pub fn queuer_parts<F>(
+        fn_graph: &FnGraph<F>,
+        reverse: bool,
+    ) -> QueuerParts<impl Future<Output = ()> + '_> {
+        let stream_order = if reverse {
+            StreamOrder::Reverse
+        } else {
+            StreamOrder::Forward
+        };
+        let super::StreamSetupInit {
+            graph_structure,
+            predecessor_counts,
+            fn_ready_tx,
+            fn_ready_rx,
+            fn_done_tx,
+            fn_done_rx,
+        } = super::stream_setup_init(
+            &fn_graph.graph_structure,
+            &fn_graph.graph_structure_rev,
+            &fn_graph.edge_counts,
+            stream_order,
+        );
+        let queuer =
+            super::fn_ready_queuer(graph_structure, predecessor_counts, fn_done_rx, fn_ready_tx);
+        QueuerParts {
+            node_count: graph_structure.node_count(),
+            fn_ready_rx,
+            fn_done_tx,
+            queuer,
+        }
+    }
+
+    /// `stream_setup_init_concurrent`, as in the `for_each_concurrent*` /
+    /// `try_for_each_concurrent*` variants.
+    pub fn queuer_parts_concurrent<'f, F>(
+        fn_graph: &'f FnGraph<F>,
+        opts: &StreamOpts<'f, 'f>,
+    ) -> QueuerPartsConcurrent<impl Future<Output = ()> + 'f + use<'f, F>> {
+        let super::StreamSetupInitConcurrent {
+            graph_structure,
+            fn_ready_rx,
+            queuer,
+            fn_done_tx,
+            fns_remaining,
+        } = super::stream_setup_init_concurrent(
+            &fn_graph.graph_structure,
+            &fn_graph.graph_structure_rev,
+            &fn_graph.edge_counts,
+            opts,
+        );
+        QueuerPartsConcurrent {
+            node_count: graph_structure.node_count(),
+            fn_ready_rx,
+            fn_done_tx,
+            fns_remaining,
+            queuer,
+        }
+    }
+
+    /// `fn_done_send_locked`.
+    pub async fn fn_done_send_locked(fn_done_tx: &RwLock<Option<Sender<FnId>>>, fn_id: FnId) {
+        super::fn_done_send_locked(fn_done_tx, fn_id).await
+    }
+
+    /// `fn_done_send`.
+    pub async fn fn_done_send(fn_done_tx: &Sender<FnId>, fn_id: FnId) {
+        super::fn_done_send(fn_done_tx, fn_id).await
+    }
+
+    /// `fns_remaining_decrement`.
+    pub async fn fns_remaining_decrement(
+        fns_remaining: &RwLock<usize>,
+        fn_done_tx: &RwLock<Option<Sender<FnId>>>,
+    ) {
+        super::fns_remaining_decrement(fns_remaining, fn_done_tx).await
+    }
+
+    /// `fn_done_tx_drop_if_interrupted`.
+    #[cfg(feature = "interruptible")]
+    pub async fn fn_done_tx_drop_if_interrupted(
+        fn_done_tx: &RwLock<Option<Sender<FnId>>>,
+        interrupted: bool,
+    ) {
+        super::fn_done_tx_drop_if_interrupted(fn_done_tx, interrupted).await
+    }
+
+    /// `fn_id_from_interrupt`.
+    #[cfg(feature = "interruptible")]
+    pub fn fn_id_from_interrupt(
+        fn_id_poll_outcome: interruptible::PollOutcome<FnId>,
+    ) -> (Option<FnId>, bool) {
+        super::fn_id_from_interrupt(fn_id_poll_outcome)
+    }
+
+    /// `stream_outcome_state_after_stream`.
+    pub fn stream_outcome_state_after_stream(fns_remaining: usize) -> StreamOutcomeState {
+        super::stream_outcome_state_after_stream(fns_remaining)
+    }
+
+    /// `poll_and_track_fn_ready` (without the `interruptible` feature).
+    #[cfg(not(feature = "interruptible"))]
+    pub fn poll_and_track_fn_ready(
+        fn_ready_rx: Receiver<FnId>,
+        fn_ids_processed: &mut Vec<FnId>,
+    ) -> impl Stream<Item = FnId> + '_ {
+        super::poll_and_track_fn_ready(fn_ready_rx, fn_ids_processed)
+    }
+
+    /// `poll_and_track_fn_ready` (with the `interruptible` feature).
+    #[cfg(feature = "interruptible")]
+    pub fn poll_and_track_fn_ready<'f>(
+        fn_ready_rx: Receiver<FnId>,
+        fn_ids_processed: &'f mut Vec<FnId>,
+        interruptibility_state: interruptible::InterruptibilityState<'f, 'f>,
+        interrupted_next_item_include: bool,
+    ) -> impl Stream<Item = interruptible::PollOutcome<FnId>> + 'f {
+        super::poll_and_track_fn_ready(
+            fn_ready_rx,
+            fn_ids_processed,
+            interruptibility_state,
+            interrupted_next_item_include,
+        )
+    }
+}
+
 #[cfg(feature = "fn_meta")]
 #[cfg(test)]
 mod tests {
